@@ -55,6 +55,42 @@ type c12World struct {
 	injected     map[common.Hash]uint32
 	cleanups     []func()
 	shape        string
+	prevL1       []bridgesync.Bridge
+	prevL2       []bridgesync.Bridge
+}
+
+// c12L1Snap: the L1 side of the world at an L1 block boundary (what an L1 reorg goes back to).
+type c12L1Snap struct {
+	mainLeaves, mainRoots []common.Hash
+	mainFront             ref.Frontier
+	verifiedL2            int
+	rollupLeaves          map[uint32]common.Hash
+	foreignHad            map[uint32]map[common.Hash]bool
+	infos                 []c12Info
+	l1Num                 uint64
+	prevL1                []bridgesync.Bridge
+}
+
+func (w *c12World) snapshotL1() c12L1Snap {
+	sn := c12L1Snap{mainLeaves: append([]common.Hash{}, w.mainLeaves...), mainRoots: append([]common.Hash{}, w.mainRoots...), mainFront: w.mainFront,
+		verifiedL2: w.verifiedL2, rollupLeaves: map[uint32]common.Hash{}, foreignHad: map[uint32]map[common.Hash]bool{}, infos: append([]c12Info{}, w.infos...),
+		l1Num: w.l1Num, prevL1: append([]bridgesync.Bridge{}, w.prevL1...)}
+	for k, v := range w.rollupLeaves {
+		sn.rollupLeaves[k] = v
+	}
+	for k, m := range w.foreignHad {
+		sn.foreignHad[k] = map[common.Hash]bool{}
+		for h := range m {
+			sn.foreignHad[k][h] = true
+		}
+	}
+	return sn
+}
+
+func (w *c12World) restoreL1(sn c12L1Snap) {
+	w.mainLeaves, w.mainRoots, w.mainFront, w.verifiedL2 = sn.mainLeaves, sn.mainRoots, sn.mainFront, sn.verifiedL2
+	w.rollupLeaves, w.foreignHad, w.infos, w.l1Num, w.prevL1 = sn.rollupLeaves, sn.foreignHad, sn.infos, sn.l1Num, sn.prevL1
+	w.pendingL1, w.pendingL1Br, w.pos = nil, nil, 0
 }
 
 type c12Info struct {
@@ -140,18 +176,26 @@ func (w *c12World) flushL1() error {
 	return nil
 }
 
-func c12Gen(rt *rapid.T, w *c12World) error {
-	if rapid.IntRange(0, 2).Draw(rt, "initialExitRoots") == 0 {
-		w.initialRoot = ref.EmptyRoot
+// c12Gen generates `steps` more operations. first: the world-wide choices are drawn; allowInject: L2 injections of L1 info
+// leaves may be generated (not on a stretch of L1 history that is going to be reorged away).
+func c12Gen(rt *rapid.T, w *c12World, steps int, first, allowInject bool) error {
+	if first {
+		if rapid.IntRange(0, 2).Draw(rt, "initialExitRoots") == 0 {
+			w.initialRoot = ref.EmptyRoot
+		}
+		// the deployed rollup manager pushes a new global exit root right after every verification; a third of the worlds do
+		// not rely on that (a verification's rollup exit root may then be on no L1 info leaf)
+		w.lax = rapid.IntRange(0, 2).Draw(rt, "verificationsWithoutInfoUpdate") == 0
 	}
-	// the deployed rollup manager pushes a new global exit root right after every verification; a third of the worlds do
-	// not rely on that (a verification's rollup exit root may then be on no L1 info leaf)
-	w.lax = rapid.IntRange(0, 2).Draw(rt, "verificationsWithoutInfoUpdate") == 0
-	steps := rapid.IntRange(3, 40).Draw(rt, "steps")
 	// one deposit in five repeats the fields of an earlier one on the same chain (the leaf does not cover the deposit count)
-	var prevL1, prevL2 []bridgesync.Bridge
+	prevL1, prevL2 := w.prevL1, w.prevL2
+	defer func() { w.prevL1, w.prevL2 = prevL1, prevL2 }()
 	for i := 0; i < steps; i++ {
-		switch rapid.SampledFrom([]string{"l1dep", "l1dep", "l2dep", "l2dep", "verifyOurs", "verifyForeign", "info", "endL1Block", "endL1Block", "inject"}).Draw(rt, "op") {
+		op := rapid.SampledFrom([]string{"l1dep", "l1dep", "l2dep", "l2dep", "verifyOurs", "verifyForeign", "info", "endL1Block", "endL1Block", "inject"}).Draw(rt, "op")
+		if op == "inject" && !allowInject {
+			op = "info"
+		}
+		switch op {
 		case "l1dep":
 			d := genBridgeOrRepeat(rt, prevL1)
 			d.BlockNum, d.BlockPos, d.DepositCount, d.DestinationNetwork = w.l1Num+1, w.pos, uint32(len(w.mainLeaves)), jNetID
@@ -194,7 +238,7 @@ func c12Gen(rt *rapid.T, w *c12World) error {
 				w.addInfo() // the rollup manager updates the GER on verification
 			}
 		case "verifyForeign":
-			id := uint32(rapid.IntRange(2, 4).Draw(rt, "foreignID"))
+			id := rapid.SampledFrom([]uint32{1, 2, 4}).Draw(rt, "foreignID")
 			h := genHash.Draw(rt, "foreignLER")
 			if rapid.IntRange(0, 3).Draw(rt, "foreignSpecialLER") == 0 {
 				// e.g. a neighbour that settles before its first bridge exit reports the root of an empty exit tree; a rollup
@@ -272,7 +316,20 @@ func c12Prop(rt *rapid.T, rec *ev.Recorder) {
 		fatal(rt, "INCONCLUSIVE: world: %v", err)
 	}
 	defer w.close()
-	if err := c12Gen(rt, w); err != nil {
+	// a third of the worlds see an L1 reorg after the first round of requests: the SAME service instance must then answer
+	// for the new fork (the L2 side is not reorged; no L1 info leaf of the stretch that will be dropped is injected on L2)
+	planReorg := rapid.IntRange(0, 2).Draw(rt, "l1ReorgAfterFirstRequests") == 0
+	steps := rapid.IntRange(3, 40).Draw(rt, "steps")
+	var snap c12L1Snap
+	if !planReorg {
+		err = c12Gen(rt, w, steps, true, true)
+	} else {
+		if err = c12Gen(rt, w, steps/2+1, true, true); err == nil {
+			snap = w.snapshotL1()
+			err = c12Gen(rt, w, steps/2+1, false, false)
+		}
+	}
+	if err != nil {
 		fatal(rt, "INCONCLUSIVE: a store refused a valid block: %v", err)
 	}
 	svc := bridgeservice.New(&bridgeservice.Config{Logger: log.WithFields("module", "c12"), Address: "127.0.0.1:0", ReadTimeout: 5 * time.Second, WriteTimeout: 5 * time.Second, NetworkID: jNetID},
@@ -280,131 +337,149 @@ func c12Prop(rt *rapid.T, rec *ev.Recorder) {
 	nt := false
 	proofs := 0
 	type pair struct{ dep, info int }
-	sample := func(nDeps int) []pair {
-		var ps []pair
-		for j := 0; j < nDeps; j++ {
-			for i := range w.infos {
-				ps = append(ps, pair{j, i})
+	queryAll := func() {
+		sample := func(nDeps int) []pair {
+			var ps []pair
+			for j := 0; j < nDeps; j++ {
+				for i := range w.infos {
+					ps = append(ps, pair{j, i})
+				}
 			}
-		}
-		if len(ps) > 120 {
-			var out []pair
-			for k := 0; k < 120; k++ {
-				out = append(out, ps[rapid.IntRange(0, len(ps)-1).Draw(rt, "pair")])
+			if len(ps) > 120 {
+				var out []pair
+				for k := 0; k < 120; k++ {
+					out = append(out, ps[rapid.IntRange(0, len(ps)-1).Draw(rt, "pair")])
+				}
+				return out
 			}
-			return out
+			return ps
 		}
-		return ps
-	}
-	// ---- /claim-proof for mainnet bridges
-	for _, p := range sample(len(w.mainLeaves)) {
-		inf := w.infos[p.info]
-		if p.dep >= inf.MainCount {
-			continue // this leaf's exit roots do not cover the bridge yet
-		}
-		code, body := c12Get(svc.ClaimProofHandler, fmt.Sprintf("/claim-proof?network_id=0&leaf_index=%d&deposit_count=%d", p.info, p.dep))
-		if code != 200 {
-			fatal(rt, "claim-proof(mainnet bridge %d, L1 info leaf %d covering it) -> HTTP %d %s  [world %s]", p.dep, p.info, code, body, w.shape)
-		}
-		var cp bridgetypes.ClaimProof
-		if err := json.Unmarshal(body, &cp); err != nil {
-			fatal(rt, "claim-proof response does not parse: %v", err)
-		}
-		if got := ref.VerifyProof(w.mainLeaves[p.dep], toProof(cp.ProofLocalExitRoot), uint32(p.dep)); got != inf.MER {
-			fatal(rt, "claim-proof(mainnet bridge %d, leaf %d): the proof hashes the bridge's leaf to %s, the leaf's mainnet exit root is %s  [world %s]", p.dep, p.info, got, inf.MER, w.shape)
-		}
-		if common.HexToHash(string(cp.L1InfoTreeLeaf.MainnetExitRoot)) != inf.MER || common.HexToHash(string(cp.L1InfoTreeLeaf.RollupExitRoot)) != inf.RER || cp.L1InfoTreeLeaf.L1InfoTreeIndex != uint32(p.info) {
-			fatal(rt, "claim-proof(mainnet bridge %d, leaf %d): returned L1 info leaf is not leaf %d", p.dep, p.info, p.info)
-		}
-		proofs++
-	}
-	// ---- /claim-proof for bridges of the node's own network
-	for _, p := range sample(len(w.l2Leaves)) {
-		inf := w.infos[p.info]
-		if !inf.HasOurLER || p.dep >= inf.L2Count {
-			continue
-		}
-		code, body := c12Get(svc.ClaimProofHandler, fmt.Sprintf("/claim-proof?network_id=%d&leaf_index=%d&deposit_count=%d", jNetID, p.info, p.dep))
-		if code != 200 {
-			fatal(rt, "claim-proof(L2 bridge %d, L1 info leaf %d covering it) -> HTTP %d %s  [world %s]", p.dep, p.info, code, body, w.shape)
-		}
-		var cp bridgetypes.ClaimProof
-		if err := json.Unmarshal(body, &cp); err != nil {
-			fatal(rt, "claim-proof response does not parse: %v", err)
-		}
-		ler := ref.VerifyProof(w.l2Leaves[p.dep], toProof(cp.ProofLocalExitRoot), uint32(p.dep))
-		if ler != w.l2Roots[inf.L2Count-1] {
-			fatal(rt, "claim-proof(L2 bridge %d, leaf %d): the proof hashes the bridge's leaf to %s, the local exit root verified as of that leaf is %s  [world %s]", p.dep, p.info, ler, w.l2Roots[inf.L2Count-1], w.shape)
-		}
-		if got := ref.VerifyProof(ler, toProof(cp.ProofRollupExitRoot), jNetID-1); got != inf.RER {
-			fatal(rt, "claim-proof(L2 bridge %d, leaf %d): the rollup proof hashes the local exit root to %s, the leaf's rollup exit root is %s  [world %s]", p.dep, p.info, got, inf.RER, w.shape)
-		}
-		proofs++
-	}
-	// ---- /l1-info-tree-index
-	check := func(net uint32, dep int, covers func(c12Info) bool, nDeps int) {
-		code, body := c12Get(svc.L1InfoTreeIndexForBridgeHandler, fmt.Sprintf("/l1-info-tree-index?network_id=%d&deposit_count=%d", net, dep))
-		first := -1
-		for i, inf := range w.infos {
-			if covers(inf) {
-				first = i
-				break
+		// ---- /claim-proof for mainnet bridges
+		for _, p := range sample(len(w.mainLeaves)) {
+			inf := w.infos[p.info]
+			if p.dep >= inf.MainCount {
+				continue // this leaf's exit roots do not cover the bridge yet
 			}
+			code, body := c12Get(svc.ClaimProofHandler, fmt.Sprintf("/claim-proof?network_id=0&leaf_index=%d&deposit_count=%d", p.info, p.dep))
+			if code != 200 {
+				fatal(rt, "claim-proof(mainnet bridge %d, L1 info leaf %d covering it) -> HTTP %d %s  [world %s]", p.dep, p.info, code, body, w.shape)
+			}
+			var cp bridgetypes.ClaimProof
+			if err := json.Unmarshal(body, &cp); err != nil {
+				fatal(rt, "claim-proof response does not parse: %v", err)
+			}
+			if got := ref.VerifyProof(w.mainLeaves[p.dep], toProof(cp.ProofLocalExitRoot), uint32(p.dep)); got != inf.MER {
+				fatal(rt, "claim-proof(mainnet bridge %d, leaf %d): the proof hashes the bridge's leaf to %s, the leaf's mainnet exit root is %s  [world %s]", p.dep, p.info, got, inf.MER, w.shape)
+			}
+			if common.HexToHash(string(cp.L1InfoTreeLeaf.MainnetExitRoot)) != inf.MER || common.HexToHash(string(cp.L1InfoTreeLeaf.RollupExitRoot)) != inf.RER || cp.L1InfoTreeLeaf.L1InfoTreeIndex != uint32(p.info) {
+				fatal(rt, "claim-proof(mainnet bridge %d, leaf %d): returned L1 info leaf is not leaf %d", p.dep, p.info, p.info)
+			}
+			proofs++
 		}
-		if code == 200 {
-			var idx uint32
-			if err := json.Unmarshal(body, &idx); err != nil {
-				fatal(rt, "l1-info-tree-index response does not parse: %s", body)
+		// ---- /claim-proof for bridges of the node's own network
+		for _, p := range sample(len(w.l2Leaves)) {
+			inf := w.infos[p.info]
+			if !inf.HasOurLER || p.dep >= inf.L2Count {
+				continue
 			}
-			if int(idx) >= len(w.infos) || !covers(w.infos[idx]) {
-				fatal(rt, "l1-info-tree-index(network %d, deposit count %d) returned leaf %d whose exit roots do not cover that bridge (first covering leaf: %d of %d)  [world %s]", net, dep, idx, first, len(w.infos), w.shape)
+			code, body := c12Get(svc.ClaimProofHandler, fmt.Sprintf("/claim-proof?network_id=%d&leaf_index=%d&deposit_count=%d", jNetID, p.info, p.dep))
+			if code != 200 {
+				fatal(rt, "claim-proof(L2 bridge %d, L1 info leaf %d covering it) -> HTTP %d %s  [world %s]", p.dep, p.info, code, body, w.shape)
 			}
-			if int(idx) == first {
-				rec.Class("index_lookup_minimal")
+			var cp bridgetypes.ClaimProof
+			if err := json.Unmarshal(body, &cp); err != nil {
+				fatal(rt, "claim-proof response does not parse: %v", err)
+			}
+			ler := ref.VerifyProof(w.l2Leaves[p.dep], toProof(cp.ProofLocalExitRoot), uint32(p.dep))
+			if ler != w.l2Roots[inf.L2Count-1] {
+				fatal(rt, "claim-proof(L2 bridge %d, leaf %d): the proof hashes the bridge's leaf to %s, the local exit root verified as of that leaf is %s  [world %s]", p.dep, p.info, ler, w.l2Roots[inf.L2Count-1], w.shape)
+			}
+			if got := ref.VerifyProof(ler, toProof(cp.ProofRollupExitRoot), jNetID-1); got != inf.RER {
+				fatal(rt, "claim-proof(L2 bridge %d, leaf %d): the rollup proof hashes the local exit root to %s, the leaf's rollup exit root is %s  [world %s]", p.dep, p.info, got, inf.RER, w.shape)
+			}
+			proofs++
+		}
+		// ---- /l1-info-tree-index
+		check := func(net uint32, dep int, covers func(c12Info) bool, nDeps int) {
+			code, body := c12Get(svc.L1InfoTreeIndexForBridgeHandler, fmt.Sprintf("/l1-info-tree-index?network_id=%d&deposit_count=%d", net, dep))
+			first := -1
+			for i, inf := range w.infos {
+				if covers(inf) {
+					first = i
+					break
+				}
+			}
+			if code == 200 {
+				var idx uint32
+				if err := json.Unmarshal(body, &idx); err != nil {
+					fatal(rt, "l1-info-tree-index response does not parse: %s", body)
+				}
+				if int(idx) >= len(w.infos) || !covers(w.infos[idx]) {
+					fatal(rt, "l1-info-tree-index(network %d, deposit count %d) returned leaf %d whose exit roots do not cover that bridge (first covering leaf: %d of %d)  [world %s]", net, dep, idx, first, len(w.infos), w.shape)
+				}
+				if int(idx) == first {
+					rec.Class("index_lookup_minimal")
+				} else {
+					rec.Class("index_lookup_not_minimal")
+				}
+				if first > 0 && first < len(w.infos)-1 {
+					nt = true
+				}
 			} else {
-				rec.Class("index_lookup_not_minimal")
+				if first >= 0 {
+					rec.Class("index_lookup_error_although_covered")
+				} else {
+					rec.Class("index_lookup_error_not_covered")
+				}
 			}
-			if first > 0 && first < len(w.infos)-1 {
-				nt = true
-			}
-		} else {
-			if first >= 0 {
-				rec.Class("index_lookup_error_although_covered")
-			} else {
-				rec.Class("index_lookup_error_not_covered")
+			if first < 0 && code == 200 {
+				fatal(rt, "l1-info-tree-index(network %d, deposit count %d) answered although no leaf covers that bridge", net, dep)
 			}
 		}
-		if first < 0 && code == 200 {
-			fatal(rt, "l1-info-tree-index(network %d, deposit count %d) answered although no leaf covers that bridge", net, dep)
+		for dep := 0; dep <= len(w.mainLeaves)+1; dep++ {
+			d := dep
+			check(0, d, func(i c12Info) bool { return i.MainCount > d }, len(w.mainLeaves))
+		}
+		for dep := 0; dep <= len(w.l2Leaves)+1; dep++ {
+			d := dep
+			check(jNetID, d, func(i c12Info) bool { return i.HasOurLER && i.L2Count > d }, len(w.l2Leaves))
+		}
+		// ---- /injected-l1-info-leaf
+		for x := 0; x <= len(w.infos); x++ {
+			code, body := c12Get(svc.InjectedL1InfoLeafHandler, fmt.Sprintf("/injected-l1-info-leaf?network_id=%d&leaf_index=%d", jNetID, x))
+			exists := false
+			for _, idx := range w.injected {
+				if int(idx) >= x {
+					exists = true
+				}
+			}
+			if code == 200 {
+				var l bridgetypes.L1InfoTreeLeafResponse
+				_ = json.Unmarshal(body, &l)
+				g := common.HexToHash(string(l.GlobalExitRoot))
+				if idx, ok := w.injected[g]; !ok || int(idx) < x || l.L1InfoTreeIndex != idx {
+					fatal(rt, "injected-l1-info-leaf(index >= %d) returned leaf %d (GER %s) which was not injected / is below the requested index", x, l.L1InfoTreeIndex, g.Hex()[:12])
+				}
+			} else if exists {
+				fatal(rt, "injected-l1-info-leaf(index >= %d) -> HTTP %d although an injected GER with such an index exists", x, code)
+			}
 		}
 	}
-	for dep := 0; dep <= len(w.mainLeaves)+1; dep++ {
-		d := dep
-		check(0, d, func(i c12Info) bool { return i.MainCount > d }, len(w.mainLeaves))
-	}
-	for dep := 0; dep <= len(w.l2Leaves)+1; dep++ {
-		d := dep
-		check(jNetID, d, func(i c12Info) bool { return i.HasOurLER && i.L2Count > d }, len(w.l2Leaves))
-	}
-	// ---- /injected-l1-info-leaf
-	for x := 0; x <= len(w.infos); x++ {
-		code, body := c12Get(svc.InjectedL1InfoLeafHandler, fmt.Sprintf("/injected-l1-info-leaf?network_id=%d&leaf_index=%d", jNetID, x))
-		exists := false
-		for _, idx := range w.injected {
-			if int(idx) >= x {
-				exists = true
-			}
+	queryAll()
+	if planReorg {
+		if err := w.s1.VerifReorg(bg, snap.l1Num+1); err != nil {
+			fatal(rt, "INCONCLUSIVE: L1 bridge store refused the reorg: %v", err)
 		}
-		if code == 200 {
-			var l bridgetypes.L1InfoTreeLeafResponse
-			_ = json.Unmarshal(body, &l)
-			g := common.HexToHash(string(l.GlobalExitRoot))
-			if idx, ok := w.injected[g]; !ok || int(idx) < x || l.L1InfoTreeIndex != idx {
-				fatal(rt, "injected-l1-info-leaf(index >= %d) returned leaf %d (GER %s) which was not injected / is below the requested index", x, l.L1InfoTreeIndex, g.Hex()[:12])
-			}
-		} else if exists {
-			fatal(rt, "injected-l1-info-leaf(index >= %d) -> HTTP %d although an injected GER with such an index exists", x, code)
+		if err := w.si.VerifReorg(bg, snap.l1Num+1); err != nil {
+			fatal(rt, "INCONCLUSIVE: L1 info store refused the reorg: %v", err)
 		}
+		w.restoreL1(snap)
+		w.shape += "<L1 reorg>"
+		if err := c12Gen(rt, w, rapid.IntRange(1, 15).Draw(rt, "newForkSteps"), false, false); err != nil {
+			fatal(rt, "INCONCLUSIVE: a store refused a valid new-fork block: %v", err)
+		}
+		queryAll()
+		rec.Class("worlds_with_an_l1_reorg_between_two_rounds_of_requests")
 	}
 	rec.Case(nt, w.shape)
 	rec.ClassN("claim_proofs_verified", proofs)
